@@ -9,6 +9,7 @@ mod c08;
 mod c09;
 mod c16;
 mod c10;
+mod c11;
 mod backhalf;
 pub mod compile;
 
@@ -81,6 +82,7 @@ fn main() {
                 "C09" => c09::run(&tier, seed),
                 "C16" => c16::run(&tier, seed),
                 "C10" => c10::run(&tier, seed),
+                "C11" => c11::run(&tier, seed),
                 _ => {
                     eprintln!("unknown property {prop}");
                     2
